@@ -449,6 +449,8 @@ for _id, _prop, _rule, _desc, _eb in [
     ("c10-result-count-dropped", "C10", "R10.2", "commit_head over write_int's result (C02i/3) that returns the flag instead of the byte count", False),
     ("c04-unswitched-ttl-hint-ignored", "C04", "R04.1", "add_generic_rrlist unswitched on the rdata hint (C04i/3) whose fast loop stores ttl without its hint", False),
     ("c04-unswitched-wrong-polarity", "C04", "R04.1", "add_generic_rrlist unswitched on the rdata hint (C04i/3) with the two loops swapped", False),
+    ("c07-head-policy-wrong", "C07", "R07.4", "shared head reader (C07i/2) called by read_unsigned with the indefinite-length policy of containers", False),
+    ("c07-head-wrong-type", "C07", "R07.4", "shared head reader (C07i/2) called by read_negative with the major type UNSIGNED", False),
     ("c14-result-unchecked", "C14", "R14.3", "compressor step reporting through a result struct (C14i/2) whose failure flag write() ignores", False),
     ("c14-result-ok-on-error", "C14", "R14.3", "compressor step reporting through a result struct (C14i/2) that says ok for a refused code", False),
     ("c06-flush-guard-inverted", "C06", "R06.4", "flush_buffer writes only when nothing is staged", False),
